@@ -35,6 +35,20 @@ Theorem C12_data_keeps_plain_fields : forall ty raw off fs,
     forall f, In f fs -> ordinary_key (fst f) = true -> In (fst f, value_of (snd f)) data.
 Proof. exact data_of_plain_body. Qed.
 
+(* the derived fields follow fixed rules: success= / res= become result=success|fail (and disappear),
+   an unset auid / ses becomes "unset", a negative exit code becomes its errno name *)
+Theorem C12_result_rule : forall m o v, kv_get (L "success") m = Some (o, v) ->
+  let good := isS (map lower v) "yes" || isS (map lower v) "1" || has_prefix (L "suc") (map lower v) in
+  kv_get (L "result") (do_result m) = Some (newf (if good then L "success" else L "fail")) /\ kv_get (L "success") (do_result m) = None.
+Proof. exact result_rule. Qed.
+Theorem C12_unset_rule : forall k m o v, kv_get (L k) m = Some (o, v) ->
+  kv_get (L k) (normalize_unset k m) = Some (o, if isS v "4294967295" || isS v "-1" then L "unset" else v).
+Proof. exact unset_rule. Qed.
+Theorem C12_exit_rule : forall m o v code, kv_get (L "exit") m = Some (o, v) -> atoi v = Some code ->
+  kv_get (L "exit") (do_exit m) =
+    Some (o, if (code <? 0)%Z then match lookup_tab (- code)%Z Errno.errno_to_name with Some n => S2 n | None => v end else v).
+Proof. exact exit_rule. Qed.
+
 (* non-vacuity, and the whole Data() pipeline on one record of each decoded kind *)
 Example C12_example_execve :
   data_of 1309%N (L "audit(1.002:3): argc=2 a0=""ls"" a1=2D6C2061") (Some 12%nat)
@@ -50,3 +64,6 @@ Print Assumptions C12_quoted_field_tokenised.
 Print Assumptions C12_body_tokenised.
 Print Assumptions C12_fields_extracted.
 Print Assumptions C12_data_keeps_plain_fields.
+Print Assumptions C12_result_rule.
+Print Assumptions C12_unset_rule.
+Print Assumptions C12_exit_rule.
